@@ -20,6 +20,8 @@ func genEnvLocks() (string, error) {
 	}
 	var accs []access
 	var regions []string // method: sequence of regions, e.g. "SetValue: W"
+	// calls made while e.rwMutex is held: "Method|class:callee|d" (d = 1 when the region is closed by a deferred unlock)
+	var held []string
 	files, _ := filepath.Glob(filepath.Join(repo, "env", "*.go"))
 	sort.Strings(files)
 	for _, fn := range files {
@@ -29,6 +31,17 @@ func genEnvLocks() (string, error) {
 		f, err := parser.ParseFile(fset, fn, nil, 0)
 		if err != nil {
 			return "", err
+		}
+		pkgNames := map[string]bool{}
+		for _, im := range f.Imports {
+			nm := strings.Trim(im.Path.Value, "\"")
+			if i := strings.LastIndex(nm, "/"); i >= 0 {
+				nm = nm[i+1:]
+			}
+			if im.Name != nil {
+				nm = im.Name.Name
+			}
+			pkgNames[nm] = true
 		}
 		for _, d := range f.Decls {
 			fd, ok := d.(*ast.FuncDecl)
@@ -79,6 +92,45 @@ func genEnvLocks() (string, error) {
 			visitExpr = func(n ast.Node, write bool) {
 				ast.Inspect(n, func(x ast.Node) bool {
 					switch y := x.(type) {
+					case *ast.CallExpr:
+						if mode != "none" {
+							cls := ""
+							switch fn := y.Fun.(type) {
+							case *ast.Ident:
+								switch fn.Name {
+								case "len", "make", "delete", "cap", "append", "new", "string", "int", "int64":
+								default:
+									cls = "func:" + fn.Name
+								}
+							case *ast.SelectorExpr:
+								rx := exprString(fn.X)
+								switch {
+								case pkgNames[rx]:
+									cls = "pkg:" + rx + "." + fn.Sel.Name
+								case rx == recv+".parent":
+									cls = "up:" + fn.Sel.Name
+								case rx == recv+".externalLookup":
+									cls = "external:" + fn.Sel.Name
+								case rx == recv+".rwMutex":
+									cls = "" // the region's own lock operations
+								case rx == recv:
+									cls = "self:" + fn.Sel.Name
+								case strings.HasSuffix(rx, ".rwMutex"):
+									cls = "lock-other:" + fn.Sel.Name
+								default:
+									cls = "other:" + rx + "." + fn.Sel.Name
+								}
+							default:
+								cls = "dynamic"
+							}
+							if cls != "" {
+								d := "0"
+								if deferred != "" {
+									d = "1"
+								}
+								held = append(held, fd.Name.Name+"|"+cls+"|"+d)
+							}
+						}
 					case *ast.SelectorExpr:
 						if t, ok := tableOf(y); ok {
 							k := "read"
@@ -212,6 +264,26 @@ func genEnvLocks() (string, error) {
 	}
 	b.WriteString("\n]\n\n")
 	b.WriteString("/-- per method: the sequence of lock acquisitions (R = RLock, W = Lock) -/\n")
-	b.WriteString("def envRegions : List String := " + leanStrList(regions) + "\n\nend Anko.Gen\n")
+	b.WriteString("def envRegions : List String := " + leanStrList(regions) + "\n\n")
+	sort.Strings(held)
+	var heldU []string
+	for i, h := range held {
+		if i == 0 || held[i-1] != h {
+			heldU = append(heldU, h)
+		}
+	}
+	b.WriteString("/-- calls made while the scope's lock is held: (method, class:callee, region closed by a deferred unlock).\n")
+	b.WriteString("classes: up = on e.parent, external = on e.externalLookup, self = on e itself, lock-other = another scope's mutex,\n")
+	b.WriteString("other = a method of some other value, pkg = a package function, func = a plain function, dynamic = a computed callee -/\n")
+	b.WriteString("def heldCalls : List (String × String × Bool) := [")
+	for i, h := range heldU {
+		parts := strings.Split(h, "|")
+		if i > 0 {
+			b.WriteString(",")
+		}
+		fmt.Fprintf(&b, "\n  (%s, %s, %v)", leanStr(parts[0]), leanStr(parts[1]), parts[2] == "1")
+	}
+	b.WriteString("\n]\n\nend Anko.Gen\n")
 	return b.String(), nil
 }
+
